@@ -329,11 +329,45 @@ class Ev(Interp):
         return Interp.binop(self, op, a, b, memo)
 
     # ------------------------------------------------------------------ patterns
+    def _const_of_pattern(self, name):
+        """(True, value) when a bare identifier in pattern position names a constant item in scope (rustc resolves such a pattern to the constant:
+        `match n { SGR_COLOR_RGB => .. }` compares, it does not bind), else (False, None).  In scope: a module-level const of the file the pattern
+        is in; an upper-case name that is the one const of that name in the crate (imported with `use`; an upper-case binding is rejected by the
+        crate's #![deny(warnings)])."""
+        file = getattr(self, "_pat_file", None)
+        cache = self.__dict__.setdefault("_const_pat_cache", {})
+        if (name, file) in cache:
+            pick = cache[(name, file)]
+            if pick is None:
+                return False, None
+            cv = self.const(None, name, pick)
+            return (True, cv) if cv is not None else (False, None)
+        cache[(name, file)] = None
+        hits = [(f, it_) for (f, s_, it_, t_) in self.src.consts if it_["name"] == name and not t_ and s_ is None]
+        here = [h for h in hits if file is not None and h[0] == file]
+        pick = here[0] if len(here) == 1 else (hits[0] if len(hits) == 1 and not here and name.upper() == name and name[:1].isalpha() else None)
+        if pick is None:
+            return False, None
+        try:
+            cv = self.const(None, name, pick[0])
+        except Unsupported:
+            raise Unsupported("constant pattern %s could not be evaluated" % name)
+        if cv is None:
+            return False, None
+        cache[(name, file)] = pick[0]
+        return True, cv
+
     def match_pat(self, p, v, binds):
         k = p["k"]
         if k == "ident" and not p.get("sub") and p["name"][:1].isupper() and isinstance(v, (EnumV, VariantV)) \
                 and p["name"] in self._enums.get(v.ty, ()):
             return v.name == p["name"]
+        if k == "ident" and not p.get("sub") and not p.get("mut") and not p.get("by_ref") and p["name"] not in ("None", "true", "false"):
+            is_c, cv = self._const_of_pattern(p["name"])
+            if is_c:
+                if isinstance(cv, bytes) and isinstance(v, list):
+                    return list(cv) == v
+                return cv == v and isinstance(v, bool) == isinstance(cv, bool)
         if k == "path" and isinstance(v, (EnumV, VariantV)):
             segs = p["p"].split("::")
             if segs[-1] in self._enums.get(v.ty, ()) and (len(segs) == 1 or segs[-2] in (v.ty, "Self")):
